@@ -56,12 +56,13 @@ def check_arn_functions(ctx):
                 ctx.distinct("arns", s)
 
 
-def judge_name(ctx, w, name, kind):
+def judge_name(ctx, w, name, kind, front="asyncio"):
     """Run the name through the real handlers; accepted => the minted ARN must split back into what it was built from."""
     from asl_workflow_engine.arn import parse_arn, create_arn
-    ctx.evaluation(); ctx.count("names_judged")
+    ctx.evaluation(); ctx.count("names_judged"); ctx.count("names_judged_through:" + front)
     if kind == "machine":
-        code, body = w.api("CreateStateMachine", {"name": name, "definition": json.dumps({"StartAt": "A", "States": {"A": {"Type": "Pass", "End": True}}}), "roleArn": ROLE})
+        code, body = w.api("CreateStateMachine", {"name": name, "definition": json.dumps({"StartAt": "A", "States": {"A": {"Type": "Pass", "End": True}}}), "roleArn": ROLE},
+                           flavour=front)
         if code != 200:
             ctx.count("rejected_names")
             return None
@@ -70,12 +71,12 @@ def judge_name(ctx, w, name, kind):
         p = parse_arn(arn)
         ok = p["resource_type"] == "stateMachine" and p["resource"] == name and create_arn(p) == arn
         if not ok:
-            ctx.violation("accepted-state-machine-name-breaks-arn-round-trip", dict(name=name, arn=arn, parsed=p), None)
-        w.api("DeleteStateMachine", {"stateMachineArn": arn})
+            ctx.violation("accepted-state-machine-name-breaks-arn-round-trip", dict(name=name, arn=arn, parsed=p, front_end=front), None)
+        w.api("DeleteStateMachine", {"stateMachineArn": arn}, flavour=front)
         return arn
     else:
         sm = w.sm_arn("base")
-        code, body = w.api("StartExecution", {"stateMachineArn": sm, "name": name, "input": "{}"})
+        code, body = w.api("StartExecution", {"stateMachineArn": sm, "name": name, "input": "{}"}, flavour=front)
         if code != 200:
             ctx.count("rejected_names")
             return None
@@ -86,7 +87,7 @@ def judge_name(ctx, w, name, kind):
         p = parse_arn(split[0]); p["resource_type"] = "stateMachine"
         derived_sm, derived_name = create_arn(p), split[2]
         if derived_sm != sm or derived_name != name:
-            ctx.violation("accepted-execution-name-breaks-derivation-of-state-machine", dict(name=name, executionArn=arn, derived_state_machine=derived_sm, derived_name=derived_name), None)
+            ctx.violation("accepted-execution-name-breaks-derivation-of-state-machine", dict(name=name, executionArn=arn, derived_state_machine=derived_sm, derived_name=derived_name, front_end=front), None)
         return arn
 
 
@@ -100,6 +101,9 @@ def names_space(ctx):
     yield "a" * 40 + "\n" + ":b"
     yield "ok\nname"
     yield "tab\tname"
+    for c in ":/ \n":
+        yield "name" + c            # ... as the last character
+        yield "x" * 79 + c
 
 
 def check_names(ctx):
@@ -107,7 +111,7 @@ def check_names(ctx):
     w = None
     try:
         for name in names_space(ctx):
-            for kind in ("machine", "execution"):
+            for kind, front in (("machine", "asyncio"), ("execution", "asyncio"), ("machine", "blocking"), ("execution", "blocking")):
                 i += 1
                 if not ctx.mine(i):
                     continue
@@ -116,9 +120,9 @@ def check_names(ctx):
                         w.close()
                     w = World(seed=ctx.seed)
                     w.create_machine("base", {"StartAt": "A", "States": {"A": {"Type": "Pass", "End": True}}})
-                judge_name(ctx, w, name, kind)
+                judge_name(ctx, w, name, kind, front)
                 if any(not c.isalnum() for c in name):
-                    ctx.nontrivial([kind, name])
+                    ctx.nontrivial([kind, name, front])
         n_rand = ctx.pick(0, 40000)
         for k in range(n_rand):
             i += 1
@@ -131,7 +135,7 @@ def check_names(ctx):
                     w.close()
                 w = World(seed=ctx.seed)
                 w.create_machine("base", {"StartAt": "A", "States": {"A": {"Type": "Pass", "End": True}}})
-            judge_name(ctx, w, name, rng.choice(["machine", "execution"]))
+            judge_name(ctx, w, name, rng.choice(["machine", "execution"]), rng.choice(["asyncio", "blocking"]))
     finally:
         if w is not None:
             w.close()
